@@ -16,7 +16,7 @@
      covered by the differential correspondence of tools/props/c24.py).  The unconditional
      statement for the textX pair is therefore NOT proved (it is false: 4 known findings). *)
 From TxV Require Import Core.Base Model.PegSyntax Model.Peg Model.PegEquiv Gen.SrcLangPeg Gen.SrcTxPeg
-  Proofs.PegEquivProofs.
+  Proofs.PegEquivProofs Proofs.PegEquivTextxProofs.
 
 (* Soundness of the checker: no differing pair => same acceptance and same syntax-error position, for
    all inputs, oracles, configurations, and all fuels for which neither run runs out of fuel. *)
